@@ -65,7 +65,7 @@ def rowLine (s : State) (c : Nat) (decide : Bool) : String := Id.run do
       | none => filtered := filtered + 1; continue
       | some d => if !nsAllowed s d.ns then filtered := filtered + 1; continue
     let r := getResponse s c n
-    if r != nearest s (s.clss.length + 1) c n then body := body ++ s!" {n}=SPEC-MISMATCH"
+    if r != nearest s.reg (s.reg.clss.length + 1) c n then body := body ++ s!" {n}=SPEC-MISMATCH"
     match r with
     | some (dc, di) => body := body ++ s!" {n}={dc}.{di}"
     | none => pure ()
@@ -83,8 +83,8 @@ def applyOp (st : St) (op : Op) (out : State → String) : St × String :=
   | some s' => ({ st with s := s' }, out s')
 
 def lastEv (s : State) : String :=
-  match s.evs.getLast? with
-  | some e => s!"ev {s.evs.length} {e.num} {if e.linked then 1 else 0}"
+  match s.reg.evs.getLast? with
+  | some e => s!"ev {s.reg.evs.length} {e.num} {if e.linked then 1 else 0}"
   | none => "bad-op"
 
 def step (st : St) (t : List String) : St × String :=
@@ -100,12 +100,12 @@ def step (st : St) (t : List String) : St × String :=
     match nat? parent, nat? ns, ds.mapM decl? with
     | some p, some n, some decls =>
       applyOp st (.newClass p n decls) fun s' =>
-        s!"cls {s'.clss.length} | " ++ " ".intercalate (name :: parent :: ns :: ds)
+        s!"cls {s'.reg.clss.length} | " ++ " ".intercalate (name :: parent :: ns :: ds)
     | _, _, _ => (st, "bad-op")
   | ["endbuiltins"] =>
     if st.builtinsDone then (st, "bad-op") else
-    ({ st with builtinsDone := true, base := st.s, nBuiltinCls := st.s.clss.length },
-      s!"ok {st.s.evs.length} {st.s.clss.length}")
+    ({ st with builtinsDone := true, base := st.s, nBuiltinCls := st.s.reg.clss.length },
+      s!"ok {st.s.reg.evs.length} {st.s.reg.clss.length}")
   | _ =>
   if !st.builtinsDone then (st, "bad-op") else
   match t with
@@ -120,8 +120,8 @@ def step (st : St) (t : List String) : St × String :=
     match nat? parent, nat? ns, ds.mapM decl? with
     | some p, some n, some decls =>
       let used := (decls.filter (·.has)).length
-      if p > st.s.clss.length ∨ n > numNs ∨ st.handlers + used > maxHandlers then (st, "bad-op") else
-      let (st', o) := applyOp st (.newClass p n decls) fun s' => s!"cls {s'.clss.length}"
+      if p > st.s.reg.clss.length ∨ n > numNs ∨ st.handlers + used > maxHandlers then (st, "bad-op") else
+      let (st', o) := applyOp st (.newClass p n decls) fun s' => s!"cls {s'.reg.clss.length}"
       (if o = "bad-op" then st' else { st' with handlers := st.handlers + used }, o)
     | _, _, _ => (st, "bad-op")
   | ["init"] => applyOp st .initEvents fun s' => s!"init {s'.es.numEvents} {s'.es.names.length}"
@@ -135,7 +135,7 @@ def step (st : St) (t : List String) : St × String :=
     if op = "row" ∨ op = "drow" then
       match nat? cls with
       | some c =>
-        if !st.s.built ∨ c = 0 ∨ c > st.s.clss.length then (st, "bad-op")
+        if !st.s.built ∨ c = 0 ∨ c > st.s.reg.clss.length then (st, "bad-op")
         else (st, rowLine st.s c (op = "drow"))
       | none => (st, "bad-op")
     else if op = "name" then
@@ -144,13 +144,13 @@ def step (st : St) (t : List String) : St × String :=
   | ["call", cls, mode, k, name] =>
     match nat? cls, entry? mode, kind? k with
     | some c, some e, some kind =>
-      if !st.s.built ∨ c ≤ st.nBuiltinCls ∨ c > st.s.clss.length ∨ kind = .none ∨ !nameOk name then (st, "bad-op")
+      if !st.s.built ∨ c ≤ st.nBuiltinCls ∨ c > st.s.reg.clss.length ∨ kind = .none ∨ !nameOk name then (st, "bad-op")
       else (st, s!"call {findNum st.s (toName name) kind} {outcomeTok (invoke st.s e c (toName name) kind)}")
     | _, _, _ => (st, "bad-op")
   | ["delay", cls, name] =>
     match nat? cls with
     | some c =>
-      if !st.s.built ∨ c ≤ st.nBuiltinCls ∨ c > st.s.clss.length ∨ !nameOk name then (st, "bad-op")
+      if !st.s.built ∨ c ≤ st.nBuiltinCls ∨ c > st.s.reg.clss.length ∨ !nameOk name then (st, "bad-op")
       else
         match commandDelay st.s c (toName name) with
         | (_, none) => (st, "delay 0 dropped")
